@@ -25,7 +25,6 @@ macro_rules! proof {
         #[kani::stub(rust_decimal::Decimal::checked_add, $crate::env::decimal::checked_add)]
         #[kani::stub(rust_decimal::Decimal::checked_sub, $crate::env::decimal::checked_sub)]
         #[kani::stub(<rust_decimal::Decimal as rust_decimal::MathematicalOps>::sqrt, $crate::env::decimal::sqrt)]
-        #[kani::stub(<smol_str::SmolStr as core::clone::Clone>::clone, $crate::env::misc::smolstr_clone)]
         #[kani::stub(<rust_decimal::Decimal as rust_decimal::prelude::FromPrimitive>::from_f64, $crate::env::misc::decimal_from_f64)]
         #[kani::stub(alloc::fmt::format, $crate::env::misc::fmt_format_empty)]
         #[kani::stub(chrono::Utc::now, $crate::env::misc::utc_now)]
@@ -62,6 +61,8 @@ mod c05_orderbook;
 mod c09_no_rollback;
 #[cfg(kani)]
 mod c03_requests;
+#[cfg(kani)]
+mod c19_scope;
 #[cfg(kani)]
 mod c04_index_names;
 
